@@ -148,7 +148,14 @@ impl fmt::Display for KNumber {
 
 impl Hash for KNumber {
     fn hash<H: Hasher>(&self, state: &mut H) {
-        state.write_u64(self.to_bits())
+        // Numbers that compare as equal need to produce equal hashes, see `PartialEq for KNumber`.
+        // Integers are compared with floats via conversion to f64, so the f64 value gets hashed,
+        // with -0.0 normalized to 0.0.
+        let n = match *self {
+            Self::F64(n) => n,
+            Self::I64(n) => n as f64,
+        };
+        state.write_u64(if n == 0.0 { 0 } else { n.to_bits() })
     }
 }
 
